@@ -2529,6 +2529,44 @@ func (d *svDirector) c08EndBlock(br *rig.BlockRecord, pre, post *svSnap) {
 			run.Violation("C08:service:request-without-outcome-past-expiration", detail, "request %s (expired %d) still active before the end block of height %d", id, rq.ExpirationHeight, H)
 		}
 	}
+	// "provider slashed": the recorded deposit of a binding whose request expired in this end block falls by the configured
+	// fraction (rounded down) per expired request, one after the other
+	{
+		baseDn := pre.Params.BaseDenom
+		dep := map[string]*big.Int{}
+		n := map[string]int{}
+		for _, id := range sortedKeys(pre.Active) {
+			rq, ok := pre.Reqs[id]
+			if !ok || rq.ExpirationHeight != H || post.Active[id] {
+				continue
+			}
+			rc, ok := pre.Ctxs[strings.ToUpper(rq.RequestContextId)]
+			if !ok {
+				continue
+			}
+			bk := svBKey(rc.ServiceName, rq.Provider)
+			if _, seen := dep[bk]; !seen {
+				if _, has := pre.Bindings[bk]; !has {
+					continue
+				}
+				dep[bk] = amountOf(pre.Bindings[bk].Deposit, baseDn)
+			}
+			dep[bk] = new(big.Int).Sub(dep[bk], svFloorFrac(dep[bk], pre.Params.SlashFraction))
+			n[bk]++
+		}
+		for _, bk := range sortedKeys(n) {
+			pb, ok := post.Bindings[bk]
+			if !ok {
+				continue
+			}
+			run.Eval(1)
+			if got := amountOf(pb.Deposit, baseDn); got.Cmp(dep[bk]) != 0 {
+				run.Violation("C08:service:provider-not-slashed-by-the-configured-fraction", map[string]any{"height": H, "binding": bk, "expired_requests": n[bk], "deposit_before": pre.Bindings[bk].Deposit.String(), "deposit_after": pb.Deposit.String(), "slash_fraction": pre.Params.SlashFraction.String()},
+					"%d request(s) addressed to %s expired at height %d: its recorded deposit went from %s to %s, the slash fraction %s (rounded down, per request) leaves %s%s", n[bk], bk, H, pre.Bindings[bk].Deposit, pb.Deposit, pre.Params.SlashFraction, dep[bk], baseDn)
+			}
+			run.Class("slashed", "available="+fmt.Sprint(pre.Bindings[bk].Available), "n="+fmt.Sprint(n[bk]), "slash="+svDecClass(pre.Params.SlashFraction))
+		}
+	}
 	newByCtx := map[string][]string{}
 	for _, id := range sortedKeys(post.Reqs) {
 		if _, had := pre.Reqs[id]; had {
